@@ -53,11 +53,14 @@ DURS = ['none', 0, D0, 4 * D0]
 LIVES = ['runner', 'runner', 'closeonly', 'closeonly', 'noclose', 'destroy']
 
 
+LONG = 61.0          # a healthy computation that outlasts the 60 s safety timeout of the waiters
+
+
 def gen_rand(rng, flavour):
     """flavour: 'c01' (no failures, retaining), 'c05', 'c06' (failures, cancels)."""
     nthr = rng.choice([2, 2, 3, 3, 4])
     nkeys = rng.choice([1, 1, 1, 2])
-    d = rng.choice(DURS)
+    d = rng.choice(DURS) if rng.random() > 0.06 else LONG
     inv = []
     for i in range(6):
         fail = flavour != 'c01' and i < 4 and rng.random() < (0.3 if flavour == 'c06' else 0.2)
@@ -310,8 +313,36 @@ class CacheHarness:
                         aio.set_event_loop(None)
                 return body
 
-            for ti, spec in enumerate(scen['threads']):
-                s.spawn(thread_body(ti, spec), f'T{ti}')
+            ths = [s.spawn(thread_body(ti, spec), f'T{ti}') for ti, spec in enumerate(scen['threads'])]
+            if scen.get('epilogue'):
+                # when every thread is done: the owner of the mapping evicts everything, then each key is
+                # requested once more from a fresh loop - the mapping being the only store, each must be recomputed
+                s.block(lambda: all(t.st == simrt.DONE for t in ths), None, 'epilogue-join')
+                keys = sorted({c['key'] for t in scen['threads'] for c in t['callers']})
+                had = {k for k in keys if any(kk[0] == (k,) for kk in list(cache))}
+                emit('evict_all', sorted(had))
+                for kk in list(cache):
+                    del cache[kk]
+
+                def epi():
+                    loop = aio.new_event_loop()
+                    aio.set_event_loop(loop)
+
+                    async def again():
+                        for k in keys:
+                            cid_var.set(f'E.{k}')
+                            emit('ecall', k)
+                            try:
+                                r = await cf(k)
+                                emit('eret', k, 'ok', r)
+                            except HarnessError as e:       # the fresh computation itself was scripted to fail
+                                emit('eret', k, 'own_failure', e.args[0])
+                            except BaseException as e:      # noqa
+                                emit('eret', k, 'exc', repr(e)[:100])
+                    loop.run_until_complete(again())
+                    loop.close()
+                e = s.spawn(epi, 'E')
+                s.block(lambda: e.st == simrt.DONE, None, 'epilogue-join2')
 
         def pre(s):
             if delays and hasattr(s, 'line_delays'):
